@@ -43,7 +43,7 @@ Proof.
   assert (H2 : t_kind (tok_of n_p) = KTag) by (vm_compute; reflexivity).
   assert (H3 : a_name (dir_of n_p) = m_attr_prefix bx_mgr ++ d_text) by (vm_compute; reflexivity).
   assert (H4 : filter (pref (m_attr_prefix bx_mgr)) (t_attrs (tok_of n_p)) = [dir_of n_p]) by (vm_compute; reflexivity).
-  assert (H5 : str_eqb (map bx_lower (t_name (tok_of n_p))) (m_tag_prefix bx_mgr ++ d_block) = false) by (vm_compute; reflexivity).
+  assert (H5 : str_eqb (block_key bx_lower (t_name (tok_of n_p))) (m_tag_prefix bx_mgr ++ d_block) = false) by (vm_compute; reflexivity).
   exact (conj H1 (conj H2 (conj H3 (conj H4 H5)))).
 Qed.
 
